@@ -190,8 +190,14 @@ func checkWalk(ast *js.AST, g *groundTruth, stop map[int]bool) (string, string) 
 	v := &recVisitor{stopAt: stop}
 	js.Walk(v, ast)
 	// ancestor relation of the ground truth on keys
+	// (quadratic in the depth: built for the enumerated trees; the very deep and very wide ones are checked for the
+	// entered set, the Enter/Exit balance and the order only)
+	big := len(g.nodes) > 4000
 	anc := map[[2]string]bool{}
 	for i, n := range g.nodes {
+		if big {
+			break
+		}
 		for p := n.parent; p >= 0; p = g.nodes[p].parent {
 			anc[[2]string{g.nodes[p].key, n.key}] = true
 		}
@@ -207,7 +213,7 @@ func checkWalk(ast *js.AST, g *groundTruth, stop map[int]bool) (string, string) 
 			if _, ok := g.index[k]; !ok {
 				return "foreign-node", fmt.Sprintf("Enter received %s, which is not a node of the tree (a copy, or reachable only through scope tables)", k)
 			}
-			if len(stack) > 0 && !anc[[2]string{stack[len(stack)-1], k}] {
+			if !big && len(stack) > 0 && !anc[[2]string{stack[len(stack)-1], k}] {
 				return "child-before-parent", fmt.Sprintf("%s is entered inside %s, which is not one of its ancestors", k, stack[len(stack)-1])
 			}
 			entered[k]++
@@ -237,7 +243,7 @@ func checkWalk(ast *js.AST, g *groundTruth, stop map[int]bool) (string, string) 
 	example := map[string]int{}
 	for i, n := range g.nodes {
 		cut := false
-		for p := n.parent; p >= 0; p = g.nodes[p].parent {
+		for p := n.parent; p >= 0 && len(stopped) > 0; p = g.nodes[p].parent {
 			if stopped[g.nodes[p].key] {
 				cut = true
 				break
@@ -360,6 +366,7 @@ var c18ExtraSeeds = []string{
 
 func c18Setup(c *engine.Ctx) {
 	c.Register(&engine.Space{Name: "walk", Run: c18Run})
+	c.Register(&engine.Space{Name: "walk-big", Run: c18Run, NoMinimise: true})
 }
 
 func c18Work(c *engine.Ctx) {
@@ -393,6 +400,33 @@ func c18Work(c *engine.Ctx) {
 			c.Exec(sp, in, map[string]string{"opts": "00"})
 			c.Count("exec", 1)
 		})
+	}
+	// trees as deep as the parser returns them (one level of source nesting is several levels of tree) and as wide
+	big := c.SpaceByName("walk-big")
+	k = 0
+	for _, d := range [][3]string{{"f(", "1", ")"}, {"[", "", "]"}, {"(", "1", ")"}, {"x={a:", "1", "}"}, {"a=>", "1", ""}, {"!", "a", ""}, {"a?.b(", "", ")"}, {"`${", "", "}`"}, {"new A(", "", ")"}, {"[...", "a", "]"},
+		{"{", "", "}"}, {"if(a)", ";", ""}, {"for(;;)", ";", ""}, {"function f(){", "", "}"}, {"x=function(){", "", "}"}, {"x=()=>{", "", "}"}, {"class A{m(){", "", "}}"}, {"l:", ";", ""}, {"try{", "", "}catch{}"}, {"switch(a){case 1:", "", "}"}, {"a=", "1", ""}, {"a?", "1", ":2"}, {"a,(", "1", ")"}} {
+		for _, n := range []int{100, 330, 660, 900, 998} {
+			k++
+			if !c.Mine(k) {
+				continue
+			}
+			prog := strings.Repeat(d[0], n) + d[1] + strings.Repeat(d[2], n)
+			c.Exec(big, []byte(prog), map[string]string{"opts": "00"})
+			c.Exec(big, []byte(prog), map[string]string{"opts": "10"})
+			c.Count("exec", 2)
+			c.Count("deep-programs", 1)
+		}
+	}
+	for _, w := range [][3]string{{"x=[", "1,", "]"}, {"f(", "a,", "b)"}, {"", "a;", ""}, {"x={", "a:1,", "}"}, {"class A{", "m(){}", "}"}, {"switch(a){", "case 1:b;", "}"}, {"let ", "a=1,", "b"}, {"x=`", "${a}", "`"}} {
+		k++
+		if !c.Mine(k) {
+			continue
+		}
+		prog := w[0] + strings.Repeat(w[1], 3000) + w[2]
+		c.Exec(big, []byte(prog), map[string]string{"opts": "00"})
+		c.Count("exec", 1)
+		c.Count("wide-programs", 1)
 	}
 }
 
